@@ -44,6 +44,11 @@ CLAIMS = {
    design_ref="7.12",
    note=BASE_NOTE + "Assumed: each shared access between two synchronisation calls is atomic (GIL), as the step granularity of the model; Event/Lock/Queue of the execmodel behave as specified; main_thread_only pools are driven by the gateway's submission protocol. Reply.get/waitfinish result passing is checked by the harness only.",
    technique="Coq proof: 33-clause invariant preserved by all 26 step rules, lifted to all schedules; terminal-state (deadlock-freedom style) theorems; scheduler-driven trace inclusion"),
+ "C14": dict(
+   text="Theorems (Coq, for every history of body outcomes of any length and every interleaving of submissions, receiver thread and main thread): a deadlock RemoteError for exec k implies an earlier body is really still running (started, blocked, not closed) -- so none after the previous channel closed, whether that body returned, raised, exited or was interrupted; bodies are started one at a time in arrival order by the single main thread; while a body runs the completion event is unset so an overlapping exec can only get the deadlock error and does not disturb it; a witness shows the ORIGINAL code reporting a false deadlock after a raising body. Tie: regenerated facts (completion event set in a finally covering every exit; wait(1)/deadlock-close/clear/spawn order) and a differential run of real Gateway+WorkerGateway pairs (main_thread_only, in one process over scripted pipes, deterministic scheduler, virtual clock) on all histories of length <= 2 and random longer ones against the extracted model and the property itself.",
+   design_ref="7.13",
+   note=BASE_NOTE + "A-sched (a runnable main thread reaches set() within the 1 s window) is an assumption built into the model's time-out rule and the harness's virtual clock. Python's exec/compile of the body are real but not modelled.",
+   technique="Coq invariant proof over a small LTS (receiver/main/completion event) + scheduler-driven differential on the real gateway pair"),
 }
 
 REASON_TODO = "not claimed yet: model and theorems for this property are not built yet in this development (see DESIGN.md section 12 build order)"
